@@ -15,7 +15,18 @@
      v5_conformant     the encoder's output for a valid packet is parsed back by the strict grammar [C10]
 
    FINDING: none.  No frame exists on which the code accepts and the lenient grammar does not, or with a
-   different packet: (i) is proved without any extra hypothesis. *)
+   different packet: (i) is proved without any extra hypothesis.
+
+   OBSERVATION (inside the class C04 excludes, not a violation).  decode_properties! adds the MINIMAL
+   width of a subscription identifier to its running count, so on the SUBSCRIBE frame
+        82 0A 00 01 03 0B 81 00 00 01 61 00      (identifier 1 spelled 81 00, property length 3)
+   the loop does not stop at the end of the section and reads the topic filter's length byte as a
+   property identifier (InvalidPropertyId 0).  The frame is rejected; the lenient grammar accepts it,
+   the strict one does not (Spec5Tests t140/t141).  v5_exact shows that reading on can never end in an
+   acceptance: PUBLISH and SUBSCRIBE (the only carriers of that property) recompute their lengths.
+
+   Build order: Spec5Def, Spec5Tests, Spec5Base, Spec5 (after Spec3Base, V5RT, TopicFilterEq, Stable,
+   Totality). *)
 From MQ Require Import Proofs.Tactics Proofs.VarIntLaws Proofs.Parses Proofs.TopicNameEq
   Proofs.TopicFilterEq Proofs.V3RT Proofs.PropsRT Proofs.V5Len Proofs.V5RT Spec.SpecParse Model.Valid
   Proofs.Spec3Base Proofs.Spec5Def Proofs.Spec5Base.
@@ -66,7 +77,7 @@ Proof. intros H Hd. destruct (H t d Hd) as [-> _]. reflexivity. Qed.
 (* ------------------------------------------------------------------------------------------ *)
 Lemma connack_sim h : sim (c <- connack_decode h ;; ret (Connack c)) (p5_connack false).
 Proof.
-  intros t d Hd. rewrite ro_bind. unfold connack_decode. rewrite ro_bind, ro_read_exact. unfold p_slice.
+  intros t d Hd. unfold connack_decode. rewrite bind_assoc, ro_bind, ro_read_exact. unfold p_slice.
   destruct d as [|f [|c r]]; try (split; [reflexivity|exact I]).
   { change (take [f] 2) with (@None (bytes * bytes)). unfold p5_connack, p_bool01.
     rewrite sbind_assoc, sbind_u8. split; [|destruct (f =? 0); [exact I|destruct (f =? 1); exact I]].
@@ -84,7 +95,7 @@ Proof.
   { intros sp0. unfold p_reason. rewrite !sbind_assoc, !sbind_u8. rewrite mem_n_mem.
     change (reason_codes 2) with CONNECT_CODES.
     destruct (Spec.mem c CONNECT_CODES); [|split; [reflexivity|exact I]].
-    cbn [sguard]. Set Printing All. Show. Unset Printing All. rewrite bind_assoc, bind_ret.
+    cbn [sguard]. rewrite bind_assoc, bind_ret.
     assert (S1 : sim (c0 <- (props <- decode_props (CtxPacket (h_typ h)) CONNACK_PROPS ;;
                              ret {| ca_sp := sp0; ca_code := c; ca_props := props |}) ;; ret (Connack c0))
                      (pr <~ p_props false 2 ;; sret (Connack {| ca_sp := sp0; ca_code := c; ca_props := pr |}))).
@@ -97,3 +108,1179 @@ Proof.
   - destruct (N.eqb_spec f 1) as [F1|F1]; [|split; [reflexivity|exact I]].
     rewrite bind_assoc, bind_ret. exact (G true).
 Qed.
+
+(* ------------------------------------------------------------------------------------------ *)
+(* PUBACK / PUBREC / PUBREL / PUBCOMP, DISCONNECT, AUTH: the short forms                      *)
+(* ------------------------------------------------------------------------------------------ *)
+Lemma ro_bind_sim {A B} (m : reader A) (m' : sp A) (f : A -> reader B) t d :
+  sim m m' -> bytes_okb d = true ->
+  ro (bind m f t d) = match m' d with Some (a, d') => ro (f a t d') | None => None end.
+Proof. intros H Hd. rewrite ro_bind. destruct (H t d Hd) as [-> _]. reflexivity. Qed.
+
+Lemma sbind_at_end_nil {B} (f : bool -> sp B) : sbind at_end f [] = f true [].
+Proof. reflexivity. Qed.
+Lemma sbind_at_end_cons {B} (f : bool -> sp B) x r : sbind at_end f (x :: r) = f false (x :: r).
+Proof. reflexivity. Qed.
+
+Lemma p_reason_some typ d c d' : p_reason typ d = Some (c, d') -> d = c :: d'.
+Proof.
+  unfold p_reason, sbind at 1. destruct (p_u8 d) as [[b d1]|] eqn:E; [|discriminate]. apply p_u8_some in E. subst d.
+  intros H. apply guard_some in H as (_ & -> & ->). reflexivity.
+Qed.
+
+Lemma ack_eq table typ h (K : ack -> packet) t d :
+  tab ACK_PROPS typ -> codes_of table = reason_codes typ -> bytes_okb d = true -> h_rl h = len d ->
+  ro ((a <- ack_decode table h ;; ret (K a)) t d) = (a <~ p5_ack false typ ;; sret (K a)) d.
+Proof.
+  intros Ht Hc Hd Hrl. unfold ack_decode, p5_ack. rewrite Hrl.
+  rewrite bind_assoc, (ro_bind_sim _ _ _ _ _ sim_pid_read Hd). rewrite sbind_assoc. unfold sbind at 1.
+  destruct (p_pid d) as [[pid d1]|] eqn:Ep; [|reflexivity].
+  pose proof (p_pid_some _ _ _ Ep) as Hl. destruct (suffixing_pid _ _ _ Ep) as [c0 Hc0].
+  assert (Hd1 : bytes_okb d1 = true) by (subst d; exact (bytes_okb_suffix _ _ Hd)).
+  destruct d1 as [|c d2].
+  { rewrite len_nil in Hl. destruct (N.eqb_spec (len d) 2) as [_|E]; [reflexivity|exfalso; lia]. }
+  rewrite len_cons in Hl. destruct (N.eqb_spec (len d) 2) as [E|_]; [exfalso; lia|].
+  rewrite sbind_assoc, sbind_at_end_cons. rewrite sbind_assoc.
+  destruct d2 as [|y d3].
+  { rewrite len_nil in Hl. destruct (N.eqb_spec (len d) 3) as [_|E]; [|exfalso; lia].
+    rewrite bind_assoc. unfold reason_read, p_reason. rewrite bind_assoc, sbind_assoc. unfold bind at 1. cbn [read_u8].
+    rewrite sbind_u8. rewrite Hc, mem_n_mem. destruct (Spec.mem c (reason_codes typ)); reflexivity. }
+  rewrite !len_cons in Hl. destruct (N.eqb_spec (len d) 3) as [E|_]; [exfalso; lia|].
+  rewrite bind_assoc.
+  rewrite (ro_bind_sim _ _ _ _ _ (sim_reason table (h_typ h) typ Hc) Hd1). unfold sbind at 1.
+  destruct (p_reason typ (c :: y :: d3)) as [[code d4]|] eqn:Er; [|reflexivity].
+  pose proof (p_reason_some _ _ _ _ Er) as E4. inversion E4; subst d4 code.
+  rewrite sbind_assoc, sbind_at_end_cons.
+  apply okb_cons_inv in Hd1 as [_ Hd2].
+  rewrite bind_assoc, (ro_bind_sim _ _ _ _ _ (props_lenient (CtxPacket (h_typ h)) ACK_PROPS typ Ht eq_refl) Hd2).
+  rewrite sbind_assoc. unfold sbind at 1. destruct (p_props false typ (y :: d3)) as [[pr d5]|]; reflexivity.
+Qed.
+
+Lemma disconnect_eq h t d : bytes_okb d = true -> h_rl h = len d ->
+  ro ((x <- disconnect_decode h ;; ret (Disconnect x)) t d) = p5_disconnect false d.
+Proof.
+  intros Hd Hrl. unfold disconnect_decode, p5_disconnect. rewrite Hrl.
+  destruct d as [|c d2]; [reflexivity|].
+  rewrite len_cons. destruct (N.eqb_spec (1 + len d2) 0) as [E|_]; [exfalso; lia|].
+  rewrite sbind_at_end_cons.
+  destruct d2 as [|y d3].
+  { rewrite len_nil. change (1 + 0 =? 1) with true. cbv iota.
+    rewrite bind_assoc. unfold reason_read, p_reason. rewrite bind_assoc, sbind_assoc. unfold bind at 1. cbn [read_u8].
+    rewrite sbind_u8. change (codes_of PDisconnect) with (reason_codes 14). rewrite mem_n_mem.
+    destruct (Spec.mem c (reason_codes 14)); reflexivity. }
+  rewrite len_cons. destruct (N.eqb_spec (1 + (1 + len d3)) 1) as [E|_]; [exfalso; lia|].
+  rewrite bind_assoc.
+  assert (Hc : codes_of PDisconnect = reason_codes 14) by reflexivity.
+  rewrite (ro_bind_sim _ _ _ _ _ (sim_reason PDisconnect (h_typ h) 14 Hc) Hd). unfold sbind at 1.
+  destruct (p_reason 14 (c :: y :: d3)) as [[code d4]|] eqn:Er; [|reflexivity].
+  pose proof (p_reason_some _ _ _ _ Er) as E4. inversion E4; subst d4 code.
+  rewrite sbind_at_end_cons.
+  apply okb_cons_inv in Hd as [_ Hd2].
+  rewrite bind_assoc, (ro_bind_sim _ _ _ _ _ (props_lenient (CtxPacket (h_typ h)) DISCONNECT_PROPS 14 tab_disconnect eq_refl) Hd2).
+  unfold sbind at 1. destruct (p_props false 14 (y :: d3)) as [[pr d5]|]; reflexivity.
+Qed.
+
+Lemma auth_eq h t d : bytes_okb d = true -> h_rl h = len d ->
+  ro ((x <- auth_decode h ;; ret (Auth x)) t d) = p5_auth false d.
+Proof.
+  intros Hd Hrl. unfold auth_decode, p5_auth. rewrite Hrl.
+  destruct d as [|c d2]; [reflexivity|].
+  rewrite len_cons. destruct (N.eqb_spec (1 + len d2) 0) as [E|_]; [exfalso; lia|].
+  rewrite sbind_at_end_cons. rewrite bind_assoc.
+  assert (Hc : codes_of PAuth = reason_codes 15) by reflexivity.
+  rewrite (ro_bind_sim _ _ _ _ _ (sim_reason PAuth (h_typ h) 15 Hc) Hd). unfold sbind at 1.
+  destruct (p_reason 15 (c :: d2)) as [[code d4]|] eqn:Er; [|reflexivity].
+  pose proof (p_reason_some _ _ _ _ Er) as E4. inversion E4; subst d4 code.
+  apply okb_cons_inv in Hd as [_ Hd2].
+  rewrite bind_assoc, (ro_bind_sim _ _ _ _ _ (props_lenient (CtxPacket (h_typ h)) AUTH_PROPS 15 tab_auth eq_refl) Hd2).
+  unfold sbind at 1. destruct (p_props false 15 d2) as [[pr d5]|]; reflexivity.
+Qed.
+
+(* ------------------------------------------------------------------------------------------ *)
+(* CONNECT                                                                                    *)
+(* ------------------------------------------------------------------------------------------ *)
+Definition flagged (o : option pvalue) : bool := match o with Some (VN 1) => true | _ => false end.
+Lemma flagged_cases o : (o = Some (VN 1) /\ flagged o = true) \/
+  (flagged o = false /\ forall (A : Type) (x y : A), match o with Some (VN 1) => x | _ => y end = y).
+Proof.
+  destruct o as [[n|b]|]; try (right; split; reflexivity).
+  destruct n as [|p]; [right; split; reflexivity|].
+  destruct p; try (right; split; reflexivity). left. split; reflexivity.
+Qed.
+
+Lemma flag_check_sim {A} (o : option pvalue) (payload : bytes) (x : A) :
+  sim (if flagged o && negb (utf8_valid payload) then fail InvalidPayloadFormat else ret x)
+      (_ <~ sguard (match o with Some (VN 1) => utf8_valid payload | _ => true end) ;; sret x).
+Proof.
+  destruct (flagged_cases o) as [[-> Hf]|[Hf Hm]].
+  - cbn [flagged andb]. destruct (utf8_valid payload); cbn [negb sguard].
+    + apply (sim_ext_r _ (sret x)); [reflexivity|apply sim_ret].
+    + apply (sim_ext_r _ sfail); [reflexivity|apply sim_fail].
+  - rewrite Hf, Hm. cbn [andb sguard]. apply (sim_ext_r _ (sret x)); [reflexivity|apply sim_ret].
+Qed.
+
+Definition will_spec (s : bool) (q : N) (r : bool) : sp will :=
+  wp <~ p_props s W ;; t <~ p_name ;; m <~ p_bin ;; _ <~ sguard (utf8_flag_ok wp m) ;;
+  sret {| w_qos := q; w_retain := r; w_props := wp; w_topic := t; w_payload := m |}.
+
+Lemma will_sim q r : sim (will_decode q r) (will_spec false q r).
+Proof.
+  unfold will_decode, will_spec. apply sim_bind; [apply props_lenient; [exact tab_will|reflexivity]|intros wp].
+  unfold p_name. apply sim_sassoc. apply sim_bind; [apply sim_read_string|intros topic].
+  apply sim_sassoc. apply sim_sguard; intros Hok.
+  - apply (sim_ext (payload <- read_bytes ;;
+                    if flagged (pget wp PayloadFormatIndicator) && negb (utf8_valid payload)
+                    then fail InvalidPayloadFormat
+                    else ret {| w_qos := q; w_retain := r; w_props := wp; w_topic := topic; w_payload := payload |}) _
+                   (m <~ p_bin ;; _ <~ sguard (utf8_flag_ok wp m) ;;
+                    sret {| w_qos := q; w_retain := r; w_props := wp; w_topic := topic; w_payload := m |}) _).
+    + intros t d. unfold name_try. rewrite name_spec, Hok. reflexivity.
+    + intros d. reflexivity.
+    + apply sim_bind; [apply sim_read_bytes|intros payload]. apply flag_check_sim.
+  - intros t d. rewrite ro_bind. unfold name_try. rewrite name_spec, Hok. reflexivity.
+Qed.
+
+Definition p5_connect_rest (s : bool) : sp packet :=
+  f <~ p_cflags ;;
+  ka <~ p_u16 ;;
+  pr <~ p_props s 1 ;;
+  cid <~ p_str ;;
+  will <~ p_opt (cf_will f) (will_spec s (cf_wqos f) (cf_wretain f)) ;;
+  user <~ p_opt (cf_user f) p_str ;;
+  pass <~ p_opt (cf_pass f) p_bin ;;
+  sret (Connect {| c_protocol := V500; c_clean := cf_clean f; c_keep_alive := ka;
+                   c_props := pr; c_client_id := cid; c_will := will;
+                   c_username := user; c_password := pass |}).
+Lemma p5_connect_split s d :
+  p5_connect s d = (name <~ p_bin ;; lvl <~ p_u8 ;; _ <~ sguard (Spec.leq name [77; 81; 84; 84] && (lvl =? 5)) ;;
+                    p5_connect_rest s) d.
+Proof. reflexivity. Qed.
+
+Lemma sim_opt {A} (c : bool) (m : reader A) (m' : sp A) :
+  sim m m' -> sim (if c then s <- m ;; ret (Some s) else ret None) (p_opt c m').
+Proof. intros H. destruct c; [|apply sim_ret]. unfold p_opt. apply sim_finish. exact H. Qed.
+
+Lemma will_part_sim b : (if bit b 2 then (b / 8) mod 4 <? 3 else (b / 8) mod 4 =? 0) = true ->
+  sim (if bit b 2 then
+         qos <- lift_outcome (qos_of_u8 ((b / 8) mod 4)) ;; w <- will_decode qos (bit b 5) ;; ret (Some w)
+       else if negb ((b / 8) mod 4 =? 0) then fail (InvalidConnectFlags b) else ret None)
+      (p_opt (bit b 2) (will_spec false ((b / 8) mod 4) (bit b 5))).
+Proof.
+  intros Q. destruct (bit b 2).
+  - unfold p_opt. apply (sim_ext_l (w <- will_decode ((b / 8) mod 4) (bit b 5) ;; ret (Some w))).
+    + intros t d. unfold qos_of_u8. rewrite Q. reflexivity.
+    + apply sim_finish. apply will_sim.
+  - rewrite Q. cbn [negb]. apply sim_ret.
+Qed.
+
+Lemma will_part_none b t d : (if bit b 2 then (b / 8) mod 4 <? 3 else (b / 8) mod 4 =? 0) = false ->
+  ro ((if bit b 2 then
+         qos <- lift_outcome (qos_of_u8 ((b / 8) mod 4)) ;; w <- will_decode qos (bit b 5) ;; ret (Some w)
+       else if negb ((b / 8) mod 4 =? 0) then fail (InvalidConnectFlags b) else ret None) t d) = None.
+Proof.
+  intros Q. destruct (bit b 2).
+  - apply ro_bind_none_l. unfold qos_of_u8. rewrite Q. reflexivity.
+  - rewrite Q. reflexivity.
+Qed.
+
+Lemma connect_rest_sim h : sim (c <- connect_decode_with_protocol h V500 ;; ret (Connect c)) (p5_connect_rest false).
+Proof.
+  unfold connect_decode_with_protocol, p5_connect_rest, p_cflags.
+  apply sim_assoc. apply sim_sassoc. apply sim_bind; [apply sim_read_u8|intros b]. cbv zeta.
+  rewrite !testbit_bit. cbn [cf_user cf_pass cf_wretain cf_wqos cf_will cf_clean].
+  apply sim_sassoc. apply sim_sguard; intros B0.
+  2:{ intros t d. apply negb_false_iff in B0. rewrite B0. reflexivity. }
+  apply negb_true_iff in B0. rewrite B0.
+  apply sim_sassoc. apply sim_sguard; intros Q.
+  - apply (sim_ext_r _
+      (ka <~ p_u16 ;; pr <~ p_props false 1 ;; cid <~ p_str ;;
+       will <~ p_opt (bit b 2) (will_spec false ((b / 8) mod 4) (bit b 5)) ;;
+       user <~ p_opt (bit b 7) p_str ;; pass <~ p_opt (bit b 6) p_bin ;;
+       sret (Connect {| c_protocol := V500; c_clean := bit b 1; c_keep_alive := ka; c_props := pr;
+                        c_client_id := cid; c_will := will; c_username := user; c_password := pass |})));
+      [reflexivity|].
+    apply sim_assoc. apply sim_bind; [apply sim_read_u16|intros ka].
+    apply sim_assoc. apply sim_bind; [apply props_lenient; [exact tab_connect|reflexivity]|intros pr].
+    apply sim_assoc. apply sim_bind; [apply sim_read_string|intros cid].
+    apply sim_assoc. apply sim_bind; [apply will_part_sim; exact Q|intros w].
+    apply sim_assoc. apply sim_bind; [apply sim_opt, sim_read_string|intros u].
+    apply sim_assoc. apply sim_bind; [apply sim_opt, sim_read_bytes|intros pw].
+    apply (sim_ext_l (ret (Connect {| c_protocol := V500; c_clean := bit b 1; c_keep_alive := ka; c_props := pr;
+                        c_client_id := cid; c_will := w; c_username := u; c_password := pw |})));
+      [reflexivity|apply sim_ret].
+  - intros t d.
+    rewrite bind_assoc. apply ro_bind_none. intros ka d2.
+    rewrite bind_assoc. apply ro_bind_none. intros pr d3.
+    rewrite bind_assoc. apply ro_bind_none. intros cid d4.
+    rewrite bind_assoc. apply ro_bind_none_l. apply will_part_none. exact Q.
+Qed.
+
+Lemma connect_sim h : sim (c <- connect_decode h ;; ret (Connect c)) (p5_connect false).
+Proof.
+  apply (sim_ext_r _ _ _ (fun d => eq_sym (p5_connect_split false d))).
+  unfold connect_decode, protocol_decode.
+  apply sim_assoc. apply sim_assoc. apply sim_bind; [apply sim_read_bytes|intros name].
+  apply sim_assoc. apply sim_bind; [apply sim_read_u8|intros lvl].
+  change Spec.leq with beq_bytes.
+  apply sim_sguard; intros E5.
+  - apply andb_true_iff in E5 as [En El]. apply N.eqb_eq in El. subst lvl.
+    apply (sim_ext_l (c <- connect_decode_with_protocol h V500 ;; ret (Connect c))); [|apply connect_rest_sim].
+    intros t d. unfold protocol_new, MQTT. change (5 =? 3) with false. change (5 =? 4) with false.
+    rewrite !andb_false_r, En. reflexivity.
+  - intros t d. unfold protocol_new, MQISDP, MQTT. rewrite E5.
+    destruct (beq_bytes name [77; 81; 73; 115; 100; 112] && (lvl =? 3)); [reflexivity|].
+    destruct (beq_bytes name [77; 81; 84; 84] && (lvl =? 4)); [reflexivity|].
+    destruct (utf8_valid name); reflexivity.
+Qed.
+
+(* ------------------------------------------------------------------------------------------ *)
+(* the item loops: running remaining length against `many`                                    *)
+(* ------------------------------------------------------------------------------------------ *)
+Lemma length_rev' {A} (l : list A) : length (rev' l) = length l.
+Proof. unfold rev'. rewrite rev_append_rev, app_nil_r, rev_length. reflexivity. Qed.
+
+Lemma many_fuel_acc {A} (item : sp A) : forall fuel acc d l d',
+  many_fuel fuel item acc d = Some (l, d') ->
+  (length acc <= length l)%nat /\ (d <> [] -> (length acc < length l)%nat).
+Proof.
+  induction fuel as [|f IH]; intros acc d l d' H.
+  - destruct d as [|x d0]; [|discriminate]. cbn [many_fuel] in H. inversion H; subst.
+    rewrite length_rev'. split; [lia|]. intros C. exfalso. apply C. reflexivity.
+  - destruct d as [|x d0].
+    + cbn [many_fuel] in H. inversion H; subst.
+      rewrite length_rev'. split; [lia|]. intros C. exfalso. apply C. reflexivity.
+    + cbn [many_fuel] in H. destruct (item (x :: d0)) as [[a d1]|]; [|discriminate].
+      apply IH in H as [H _]. cbn [length] in H. split; [lia|]. intros _. lia.
+Qed.
+
+Lemma many1_of_many {A} (item : sp A) (x : N) (d2 : bytes) :
+  many1 item (x :: d2) = many item (x :: d2).
+Proof.
+  unfold many1, many, sbind.
+  destruct (many_fuel (length (x :: d2)) item [] (x :: d2)) as [[l d3]|] eqn:Em; [|reflexivity].
+  apply many_fuel_acc in Em as [_ Hn]. destruct l as [|a l]; [exfalso|reflexivity].
+  assert (Hne : x :: d2 <> []) by discriminate. specialize (Hn Hne). cbn [length] in Hn. lia.
+Qed.
+
+Lemma ro_filter_read5 prof t d : ro (V3.filter_read prof t d) = p_filter d.
+Proof.
+  unfold V3.filter_read, p_filter. rewrite ro_bind, ro_read_string. unfold sbind at 1.
+  destruct (p_str d) as [[s d1]|] eqn:Es; [|reflexivity]. apply p_str_some in Es as (_ & Hu & _).
+  unfold filter_try. rewrite (filter_spec prof s Hu).
+  destruct (Spec.topic_filter_ok s); reflexivity.
+Qed.
+Lemma p_filter_some d f d' : p_filter d = Some (f, d') -> len d = 2 + len (ftext f) + len d'.
+Proof.
+  unfold p_filter, sbind at 1. destruct (p_str d) as [[s d1]|] eqn:Es; [|discriminate].
+  apply p_str_some in Es as (_ & _ & Hl).
+  destruct (Spec.topic_filter_ok s); cbn [sguard sbind sret sfail]; intros H; inversion H; subst. cbn [ftext]. exact Hl.
+Qed.
+
+Lemma sub_item_eq prof t d :
+  ro ((tf <- V3.filter_read prof ;; ob <- read_u8 ;; o <- lift_outcome (subopts_of_u8 ob) ;; ret (tf, o)) t d)
+  = p5_sub_item d.
+Proof.
+  unfold p5_sub_item. apply ro_bind_ext; [apply ro_filter_read5|]. intros tf d1.
+  apply ro_bind_ext; [apply ro_read_u8|]. intros ob d2. cbv zeta. unfold subopts_of_u8. rewrite !testbit_bit.
+  destruct (N.ltb_spec 0 (ob / 64)); destruct (N.ltb_spec ob 64); try (exfalso; lia); cbn [andb]; [reflexivity|].
+  destruct (N.eqb_spec (ob mod 4) 3); destruct (N.ltb_spec (ob mod 4) 3); try (exfalso; lia); cbn [andb]; [reflexivity|].
+  destruct (N.eqb_spec ((ob / 16) mod 4) 3); destruct (N.ltb_spec ((ob / 16) mod 4) 3); try (exfalso; lia); reflexivity.
+Qed.
+Lemma sub_item_some d tf o d1 : p5_sub_item d = Some ((tf, o), d1) -> len d = 3 + len (ftext tf) + len d1.
+Proof.
+  unfold p5_sub_item, sbind at 1. destruct (p_filter d) as [[f d2]|] eqn:Ef; [|discriminate].
+  apply p_filter_some in Ef. unfold sbind at 1. destruct (p_u8 d2) as [[ob d3]|] eqn:Eq; [|discriminate].
+  apply p_u8_some in Eq. subst d2. cbv zeta. intros H. apply guard_some in H as (_ & H & ->). inversion H; subst.
+  rewrite len_cons in Ef. lia.
+Qed.
+
+Lemma bind3_item {X Y Z R} (A : reader X) (B : reader Y) (C : Y -> reader Z) (K : X -> Z -> reader R) t d :
+  (x <- A ;; y <- B ;; z <- C y ;; K x z) t d
+  = (i <- (x <- A ;; y <- B ;; z <- C y ;; ret (x, z)) ;; K (fst i) (snd i)) t d.
+Proof.
+  unfold bind, ret. destruct (A t d) as [x d1|e|s]; try reflexivity.
+  destruct (B t d1) as [y d2|e|s]; try reflexivity.
+  destruct (C y t d2) as [z d3|e|s]; reflexivity.
+Qed.
+
+(* the loop with an arbitrary running length: it ends at the end of the data only when the
+   running length is the length of the data, and then it is `many` *)
+Lemma subscribe_loop_gen prof t : forall fuel fuel' d rl acc, (length d < fuel)%nat -> (length d <= fuel')%nat ->
+  fin (ro (subscribe_loop prof fuel rl acc t d))
+  = if rl =? len d then fin (many_fuel fuel' p5_sub_item acc d) else None.
+Proof.
+  induction fuel as [|f IH]; intros fuel' d rl acc H1 H2; [lia|].
+  cbn [subscribe_loop].
+  destruct (N.eqb_spec rl 0) as [Z|Z].
+  { subst rl. destruct d as [|x d0].
+    - rewrite len_nil. destruct fuel'; reflexivity.
+    - rewrite len_cons. destruct (N.eqb_spec 0 (1 + len d0)); [exfalso; lia|reflexivity]. }
+  destruct d as [|x d0].
+  { rewrite len_nil. destruct (N.eqb_spec rl 0); [exfalso; lia|]. reflexivity. }
+  destruct fuel' as [|f']; [cbn [length] in H2; lia|].
+  rewrite (bind3_item (V3.filter_read prof) read_u8 (fun ob => lift_outcome (subopts_of_u8 ob))
+             (fun tf o => rl' <- checked_sub rl (3 + len (ftext tf)) ;;
+                          subscribe_loop prof f rl' ((tf, o) :: acc))).
+  rewrite ro_bind, sub_item_eq. cbn [many_fuel].
+  destruct (p5_sub_item (x :: d0)) as [[[tf o] d1]|] eqn:Ei; [|destruct (rl =? len (x :: d0)); reflexivity].
+  apply sub_item_some in Ei. cbn [fst snd].
+  unfold checked_sub at 1.
+  destruct (N.leb_spec (3 + len (ftext tf)) rl) as [Hle|Hgt].
+  - unfold bind at 1. cbn [ret].
+    rewrite (IH f' d1 (rl - (3 + len (ftext tf))) ((tf, o) :: acc)) by (unfold len in Ei; cbn [length] in *; lia).
+    destruct (N.eqb_spec (rl - (3 + len (ftext tf))) (len d1)); destruct (N.eqb_spec rl (len (x :: d0)));
+      try reflexivity; exfalso; lia.
+  - destruct (N.eqb_spec rl (len (x :: d0))); [exfalso; lia|reflexivity].
+Qed.
+
+Lemma unsubscribe_loop_gen prof t : forall fuel fuel' d rl acc, (length d < fuel)%nat -> (length d <= fuel')%nat ->
+  fin (ro (unsubscribe_loop prof fuel rl acc t d))
+  = if rl =? len d then fin (many_fuel fuel' p_filter acc d) else None.
+Proof.
+  induction fuel as [|f IH]; intros fuel' d rl acc H1 H2; [lia|].
+  cbn [unsubscribe_loop].
+  destruct (N.eqb_spec rl 0) as [Z|Z].
+  { subst rl. destruct d as [|x d0].
+    - rewrite len_nil. destruct fuel'; reflexivity.
+    - rewrite len_cons. destruct (N.eqb_spec 0 (1 + len d0)); [exfalso; lia|reflexivity]. }
+  destruct d as [|x d0].
+  { rewrite len_nil. destruct (N.eqb_spec rl 0); [exfalso; lia|]. reflexivity. }
+  destruct fuel' as [|f']; [cbn [length] in H2; lia|].
+  rewrite ro_bind, ro_filter_read5. cbn [many_fuel].
+  destruct (p_filter (x :: d0)) as [[tf d1]|] eqn:Ei; [|destruct (rl =? len (x :: d0)); reflexivity].
+  apply p_filter_some in Ei.
+  unfold checked_sub at 1.
+  destruct (N.leb_spec (2 + len (ftext tf)) rl) as [Hle|Hgt].
+  - unfold bind at 1. cbn [ret].
+    rewrite (IH f' d1 (rl - (2 + len (ftext tf))) (tf :: acc)) by (unfold len in Ei; cbn [length] in *; lia).
+    destruct (N.eqb_spec (rl - (2 + len (ftext tf))) (len d1)); destruct (N.eqb_spec rl (len (x :: d0)));
+      try reflexivity; exfalso; lia.
+  - destruct (N.eqb_spec rl (len (x :: d0))); [exfalso; lia|reflexivity].
+Qed.
+
+Lemma codes_loop_gen table pt typ t : codes_of table = reason_codes typ ->
+  forall fuel fuel' d rl acc, (length d < fuel)%nat -> (length d <= fuel')%nat ->
+  fin (ro (codes_loop table pt fuel rl acc t d))
+  = if rl =? len d then fin (many_fuel fuel' (p_reason typ) acc d) else None.
+Proof.
+  intros Hc. induction fuel as [|f IH]; intros fuel' d rl acc H1 H2; [lia|].
+  cbn [codes_loop].
+  destruct (N.eqb_spec rl 0) as [Z|Z].
+  { subst rl. destruct d as [|x d0].
+    - rewrite len_nil. destruct fuel'; reflexivity.
+    - rewrite len_cons. destruct (N.eqb_spec 0 (1 + len d0)); [exfalso; lia|reflexivity]. }
+  destruct d as [|x d0].
+  { rewrite len_nil. destruct (N.eqb_spec rl 0); [exfalso; lia|]. reflexivity. }
+  destruct fuel' as [|f']; [cbn [length] in H2; lia|].
+  rewrite ro_bind. cbn [many_fuel].
+  unfold reason_read at 1, p_reason at 1. unfold bind at 1. cbn [read_u8]. rewrite sbind_u8.
+  rewrite Hc, mem_n_mem. destruct (Spec.mem x (reason_codes typ)); cbn [sguard ro ret fail sbind sret sfail];
+    [|destruct (rl =? len (x :: d0)); reflexivity].
+  rewrite (IH f' d0 (rl - 1) (x :: acc)) by (cbn [length] in *; lia).
+  rewrite len_cons.
+  destruct (N.eqb_spec (rl - 1) (len d0)); destruct (N.eqb_spec rl (1 + len d0)); try reflexivity; exfalso; lia.
+Qed.
+
+Lemma fin_ro_map {A B C} (m : reader A) (f : A -> B) (g : B -> C) t d :
+  fin (ro ((x <- (y <- m ;; ret (f y)) ;; ret (g x)) t d)) = option_map (fun y => g (f y)) (fin (ro (m t d))).
+Proof. unfold bind, ret. destruct (m t d) as [a [|y r]|e|s]; reflexivity. Qed.
+Lemma fin_smap {A B} (m' : sp A) (h : A -> B) d :
+  fin ((l <~ m' ;; sret (h l)) d) = option_map h (fin (m' d)).
+Proof. unfold sbind, sret. destruct (m' d) as [[a [|y r]]|]; reflexivity. Qed.
+
+(* ------------------------------------------------------------------------------------------ *)
+(* UNSUBSCRIBE (uses the number of bytes of the property length: lenient)                     *)
+(* ------------------------------------------------------------------------------------------ *)
+Lemma unsubscribe_fin prof h t d : bytes_okb d = true -> h_rl h = len d ->
+  fin (ro ((u <- unsubscribe_decode prof h ;; ret (Unsubscribe u)) t d))
+  = fin ((p <~ p_pid ;; pr <~ p_props false 10 ;; l <~ many1 p_filter ;;
+          sret (Unsubscribe {| u_pid := p; u_props := pr; u_topics := l |})) d).
+Proof.
+  intros Hd Hrl. unfold unsubscribe_decode. rewrite Hrl.
+  rewrite bind_assoc, (ro_bind_sim _ _ _ _ _ sim_pid_read Hd). unfold sbind at 1.
+  destruct (p_pid d) as [[pid d1]|] eqn:Ep; [|reflexivity].
+  pose proof (p_pid_some _ _ _ Ep) as Hl. destruct (suffixing_pid _ _ _ Ep) as [c0 Hc0].
+  assert (Hd1 : bytes_okb d1 = true) by (subst d; exact (bytes_okb_suffix _ _ Hd)).
+  rewrite bind_assoc, ro_bind. unfold sbind at 1.
+  rewrite (props_full_lenient (CtxPacket (h_typ h)) UNSUBSCRIBE_PROPS 10 tab_unsubscribe t d1 eq_refl Hd1).
+  destruct (decode_props_full (CtxPacket (h_typ h)) UNSUBSCRIBE_PROPS t d1) as [[[pr plen] k] d2|e|s] eqn:E;
+    cbn [ro]; try reflexivity.
+  destruct (props_full_facts _ _ _ tab_unsubscribe _ _ _ _ _ _ Hd1 E) as (Hd2 & F1 & F2 & F3 & F4).
+  specialize (F4 eq_refl). cbv beta iota.
+  rewrite bind_assoc. erewrite bind_ok by (apply checked_sub_ok; lia).
+  replace (len d - (2 + k + plen)) with (len d2) by lia.
+  destruct d2 as [|x d3]; [reflexivity|].
+  destruct (N.eqb_spec (len (x :: d3)) 0) as [Z|Z]; [rewrite len_cons in Z; exfalso; lia|].
+  rewrite (fin_ro_map (fun t0 d0 => unsubscribe_loop prof (S (length d0)) (len (x :: d3)) [] t0 d0)
+             (fun topics => {| u_pid := pid; u_props := pr; u_topics := topics |}) Unsubscribe).
+  rewrite (unsubscribe_loop_gen prof t (S (length (x :: d3))) (length (x :: d3))) by lia.
+  rewrite N.eqb_refl.
+  rewrite (fin_smap (many1 p_filter) (fun l => Unsubscribe {| u_pid := pid; u_props := pr; u_topics := l |})).
+  rewrite many1_of_many. reflexivity.
+Qed.
+
+(* ------------------------------------------------------------------------------------------ *)
+(* decoders that recompute the property length from the decoded values: strict                *)
+(* ------------------------------------------------------------------------------------------ *)
+Lemma checked_sub_fail a b t d : a < b -> checked_sub a b t d = RErr InvalidRemainingLength.
+Proof. intros H. unfold checked_sub. destruct (N.leb_spec b a); [exfalso; lia|reflexivity]. Qed.
+
+(* encode_properties_len! on decoded properties: the declared length plus its minimal width *)
+Lemma props_len_decoded ctx L t d p plen k d' : Totality.nodupb L = true ->
+  decode_props_full ctx L t d = ROk (p, plen, k) d' -> props_len L p = Ok (plen + width plen).
+Proof.
+  intros Hnd E. destruct (Totality.decode_props_full_post _ _ _ _ _ _ _ _ Hnd E) as [Hb Hlt].
+  unfold props_len, props_len_of_body. rewrite Hb, (var_int_len_ok _ Hlt). reflexivity.
+Qed.
+
+Lemma subscribe_fin prof h t d : bytes_okb d = true -> h_rl h = len d ->
+  fin (ro ((s <- subscribe_decode prof h ;; ret (Subscribe s)) t d))
+  = fin ((p <~ p_pid ;; pr <~ p_props true 8 ;; l <~ many1 p5_sub_item ;;
+          sret (Subscribe {| s_pid := p; s_props := pr; s_topics := l |})) d).
+Proof.
+  intros Hd Hrl. unfold subscribe_decode. rewrite Hrl.
+  rewrite bind_assoc, (ro_bind_sim _ _ _ _ _ sim_pid_read Hd). unfold sbind at 1.
+  destruct (p_pid d) as [[pid d1]|] eqn:Ep; [|reflexivity].
+  pose proof (p_pid_some _ _ _ Ep) as Hl. destruct (suffixing_pid _ _ _ Ep) as [c0 Hc0].
+  assert (Hd1 : bytes_okb d1 = true) by (subst d; exact (bytes_okb_suffix _ _ Hd)).
+  unfold decode_props. rewrite !bind_assoc, ro_bind. unfold sbind at 1.
+  rewrite (props_strict (CtxPacket (h_typ h)) SUBSCRIBE_PROPS 8 tab_subscribe t d1 Hd1).
+  destruct (decode_props_full (CtxPacket (h_typ h)) SUBSCRIBE_PROPS t d1) as [[[pr plen] k] d2|e|s] eqn:E;
+    cbn [ro]; try reflexivity.
+  destruct (props_full_facts _ _ _ tab_subscribe _ _ _ _ _ _ Hd1 E) as (Hd2 & F1 & F2 & F3 & _).
+  pose proof (props_len_decoded _ _ _ _ _ _ _ _ (eq_refl : Totality.nodupb SUBSCRIBE_PROPS = true) E) as Hpl.
+  cbv beta iota. rewrite bind_ret, Hpl. rewrite bind_assoc. cbn [lift_outcome]. rewrite bind_ret.
+  destruct (N.eqb_spec (len d1) (width plen + plen + len d2)) as [Eq|Ne].
+  - rewrite bind_assoc. erewrite bind_ok by (apply checked_sub_ok; lia).
+    replace (len d - (2 + (plen + width plen))) with (len d2) by lia.
+    destruct d2 as [|x d3]; [reflexivity|].
+    destruct (N.eqb_spec (len (x :: d3)) 0) as [Z|Z]; [rewrite len_cons in Z; exfalso; lia|].
+    rewrite (fin_ro_map (fun t0 d0 => subscribe_loop prof (S (length d0)) (len (x :: d3)) [] t0 d0)
+               (fun topics => {| s_pid := pid; s_props := pr; s_topics := topics |}) Subscribe).
+    rewrite (subscribe_loop_gen prof t (S (length (x :: d3))) (length (x :: d3))) by lia.
+    rewrite N.eqb_refl.
+    rewrite (fin_smap (many1 p5_sub_item) (fun l => Subscribe {| s_pid := pid; s_props := pr; s_topics := l |})).
+    rewrite many1_of_many. reflexivity.
+  - rewrite bind_assoc.
+    destruct (N.lt_ge_cases (len d) (2 + (plen + width plen))) as [Lt|Ge].
+    { erewrite bind_err by (apply checked_sub_fail; exact Lt). reflexivity. }
+    erewrite bind_ok by (apply checked_sub_ok; lia).
+    set (rl := len d - (2 + (plen + width plen))).
+    destruct (N.eqb_spec rl 0) as [Z|Z]; [reflexivity|].
+    rewrite (fin_ro_map (fun t0 d0 => subscribe_loop prof (S (length d0)) rl [] t0 d0)
+               (fun topics => {| s_pid := pid; s_props := pr; s_topics := topics |}) Subscribe).
+    rewrite (subscribe_loop_gen prof t (S (length d2)) (length d2)) by lia.
+    destruct (N.eqb_spec rl (len d2)) as [Er|_]; [exfalso; unfold rl in Er; lia|reflexivity].
+Qed.
+
+Lemma suback_fin table typ h (K : suback -> packet) t d :
+  tab ACK_PROPS typ -> codes_of table = reason_codes typ -> bytes_okb d = true -> h_rl h = len d ->
+  fin (ro ((s <- suback_decode table h ;; ret (K s)) t d))
+  = fin ((s <~ p5_codes true typ ;; sret (K s)) d).
+Proof.
+  intros Ht Hc Hd Hrl. unfold suback_decode, p5_codes. rewrite Hrl.
+  rewrite bind_assoc, (ro_bind_sim _ _ _ _ _ sim_pid_read Hd). rewrite sbind_assoc. unfold sbind at 1.
+  destruct (p_pid d) as [[pid d1]|] eqn:Ep; [|reflexivity].
+  pose proof (p_pid_some _ _ _ Ep) as Hl. destruct (suffixing_pid _ _ _ Ep) as [c0 Hc0].
+  assert (Hd1 : bytes_okb d1 = true) by (subst d; exact (bytes_okb_suffix _ _ Hd)).
+  unfold decode_props. rewrite !bind_assoc, ro_bind. rewrite sbind_assoc. unfold sbind at 1.
+  rewrite (props_strict (CtxPacket (h_typ h)) ACK_PROPS typ Ht t d1 Hd1).
+  destruct (decode_props_full (CtxPacket (h_typ h)) ACK_PROPS t d1) as [[[pr plen] k] d2|e|s] eqn:E;
+    cbn [ro]; try reflexivity.
+  destruct (props_full_facts _ _ _ Ht _ _ _ _ _ _ Hd1 E) as (Hd2 & F1 & F2 & F3 & _).
+  pose proof (props_len_decoded _ _ _ _ _ _ _ _ (eq_refl : Totality.nodupb ACK_PROPS = true) E) as Hpl.
+  cbv beta iota. rewrite bind_ret, Hpl. rewrite bind_assoc. cbn [lift_outcome]. rewrite bind_ret.
+  destruct (N.eqb_spec (len d1) (width plen + plen + len d2)) as [Eq|Ne].
+  - rewrite bind_assoc. erewrite bind_ok by (apply checked_sub_ok; lia).
+    replace (len d - (2 + (plen + width plen))) with (len d2) by lia.
+    rewrite (fin_ro_map (fun t0 d0 => codes_loop table (h_typ h) (S (length d0)) (len d2) [] t0 d0)
+               (fun codes => {| sa_pid := pid; sa_props := pr; sa_codes := codes |}) K).
+    rewrite (codes_loop_gen table (h_typ h) typ t Hc (S (length d2)) (length d2)) by lia.
+    rewrite N.eqb_refl. rewrite sbind_assoc.
+    rewrite (fin_smap (many (p_reason typ)) (fun l => K {| sa_pid := pid; sa_props := pr; sa_codes := l |})).
+    reflexivity.
+  - rewrite bind_assoc.
+    destruct (N.lt_ge_cases (len d) (2 + (plen + width plen))) as [Lt|Ge].
+    { erewrite bind_err by (apply checked_sub_fail; exact Lt). reflexivity. }
+    erewrite bind_ok by (apply checked_sub_ok; lia).
+    set (rl := len d - (2 + (plen + width plen))).
+    rewrite (fin_ro_map (fun t0 d0 => codes_loop table (h_typ h) (S (length d0)) rl [] t0 d0)
+               (fun codes => {| sa_pid := pid; sa_props := pr; sa_codes := codes |}) K).
+    rewrite (codes_loop_gen table (h_typ h) typ t Hc (S (length d2)) (length d2)) by lia.
+    destruct (N.eqb_spec rl (len d2)) as [Er|_]; [exfalso; unfold rl in Er; lia|reflexivity].
+Qed.
+
+(* ---- PUBLISH ---- *)
+Lemma utf8_flag_spec pr payload :
+  utf8_flag_ok pr payload = negb (flagged (pget pr PayloadFormatIndicator) && negb (utf8_valid payload)).
+Proof.
+  unfold utf8_flag_ok. destruct (flagged_cases (pget pr PayloadFormatIndicator)) as [[-> _]|[Hf Hm]].
+  - cbn [flagged andb]. rewrite negb_involutive. reflexivity.
+  - rewrite Hf, Hm. reflexivity.
+Qed.
+
+Lemma take_all_inv (d a b : bytes) n : take d n = Some (a, b) -> (b = [] <-> len d = n).
+Proof.
+  intros H. apply take_some in H as [-> Hl]. rewrite len_app. split.
+  - intros ->. rewrite len_nil. lia.
+  - intros E. apply len_zero_nil. lia.
+Qed.
+
+Lemma publish_tail5 ctx dup retain qp s t d2 : bytes_okb d2 = true ->
+  fin (ro ((p <- (props <- decode_props ctx PUBLISH_PROPS ;;
+                  pl <- lift_outcome (props_len PUBLISH_PROPS props) ;;
+                  rl <- checked_sub (len d2) pl ;;
+                  payload <- (if 0 <? rl then
+                                data <- read_exact rl ;;
+                                if flagged (pget props PayloadFormatIndicator) && negb (utf8_valid data)
+                                then fail InvalidPayloadFormat else ret data
+                              else ret []) ;;
+                  topic' <- lift_outcome (name_try s) ;;
+                  ret {| p_dup := dup; p_retain := retain; V5.p_qospid := qp; p_topic := topic';
+                         V5.p_props := props; p_payload := payload |}) ;;
+            ret (Publish p)) t d2))
+  = fin ((_ <~ sguard (Spec.topic_name_ok s) ;;
+          pr <~ p_props true 3 ;;
+          payload <~ p_rest ;;
+          _ <~ sguard (utf8_flag_ok pr payload) ;;
+          sret (Publish {| p_dup := dup; p_retain := retain; V5.p_qospid := qp; p_topic := s;
+                           V5.p_props := pr; p_payload := payload |})) d2).
+Proof.
+  intros Hd2. destruct (Spec.topic_name_ok s) eqn:Hok.
+  2:{ (* the topic name is refused at the very end by the code *)
+    assert (Hn : forall A (K : bytes -> A) t0 d0, ro ((topic' <- lift_outcome (name_try s) ;; ret (K topic')) t0 d0) = None).
+    { intros A K t0 d0. apply ro_bind_none_l. unfold name_try. rewrite name_spec, Hok. reflexivity. }
+    replace (ro _) with (@None (packet * bytes)); [reflexivity|]. symmetry.
+    rewrite bind_assoc. apply ro_bind_none. intros props d3.
+    rewrite bind_assoc. apply ro_bind_none. intros pl d4.
+    rewrite bind_assoc. apply ro_bind_none. intros rl d5.
+    rewrite bind_assoc. apply ro_bind_none. intros payload d6.
+    apply ro_bind_none_l. apply Hn. }
+  assert (Hnt : name_try s = Ok s) by (apply name_try_ok; rewrite name_spec, Hok; reflexivity).
+  rewrite Hnt. cbn [sguard lift_outcome]. unfold sbind at 1. cbn [sret].
+  unfold decode_props. rewrite !bind_assoc, ro_bind. unfold sbind at 1.
+  rewrite (props_strict ctx PUBLISH_PROPS 3 tab_publish t d2 Hd2).
+  destruct (decode_props_full ctx PUBLISH_PROPS t d2) as [[[pr plen] k] d3|e|s0] eqn:E; cbn [ro]; try reflexivity.
+  destruct (props_full_facts _ _ _ tab_publish _ _ _ _ _ _ Hd2 E) as (Hd3 & F1 & F2 & F3 & _).
+  pose proof (props_len_decoded _ _ _ _ _ _ _ _ (eq_refl : Totality.nodupb PUBLISH_PROPS = true) E) as Hpl.
+  cbv beta iota. rewrite bind_ret, Hpl. rewrite bind_assoc. cbn [lift_outcome]. rewrite bind_ret.
+  rewrite bind_assoc.
+  destruct (N.eqb_spec (len d2) (width plen + plen + len d3)) as [Eq|Ne].
+  - erewrite bind_ok by (apply checked_sub_ok; lia).
+    replace (len d2 - (plen + width plen)) with (len d3) by lia.
+    unfold sbind at 1. cbn [p_rest]. unfold sbind at 1. rewrite utf8_flag_spec.
+    destruct d3 as [|x d4].
+    + change (0 <? len []) with false. cbv iota.
+      change (utf8_valid []) with true. rewrite andb_false_r. reflexivity.
+    + destruct (N.ltb_spec 0 (len (x :: d4))) as [_|Z]; [|rewrite len_cons in Z; exfalso; lia].
+      unfold bind, read_exact. rewrite take_all.
+      destruct (flagged (pget pr PayloadFormatIndicator) && negb (utf8_valid (x :: d4))); reflexivity.
+  - destruct (N.lt_ge_cases (len d2) (plen + width plen)) as [Lt|Ge].
+    { erewrite bind_err by (apply checked_sub_fail; exact Lt). reflexivity. }
+    erewrite bind_ok by (apply checked_sub_ok; lia).
+    set (rl := len d2 - (plen + width plen)).
+    assert (Hrl : rl <> len d3) by (unfold rl; lia).
+    destruct (N.ltb_spec 0 rl) as [Pos|Zero].
+    + unfold bind, read_exact. destruct (take d3 rl) as [[a b]|] eqn:Et; [|reflexivity].
+      pose proof (take_all_inv _ _ _ _ Et) as Hb.
+      destruct (flagged (pget pr PayloadFormatIndicator) && negb (utf8_valid a)); [reflexivity|].
+      unfold ret. cbn [ro fin]. destruct b as [|y b0]; [exfalso; apply Hrl; symmetry; apply Hb; reflexivity|reflexivity].
+    + unfold bind, ret. cbn [ro fin]. destruct d3 as [|y d4]; [exfalso; apply Hrl; rewrite len_nil; lia|reflexivity].
+Qed.
+
+Lemma p_pid_short d : len d < 2 -> p_pid d = None.
+Proof. destruct d as [|a [|b r]]; try reflexivity. rewrite !len_cons. intros H. exfalso. lia. Qed.
+
+Lemma spec_pid_first {R} (b : bool) (s : bytes) (Q : N -> qospid) (K : bytes -> qospid -> sp R) d1 :
+  (t0 <~ (_ <~ sguard b ;; sret s) ;; qp <~ (p <~ p_pid ;; sret (Q p)) ;; K t0 qp) d1
+  = match p_pid d1 with Some (pid, d2) => (_ <~ sguard b ;; K s (Q pid)) d2 | None => None end.
+Proof. unfold sbind, sguard. destruct b; cbn; destruct (p_pid d1) as [[pid d2]|]; reflexivity. Qed.
+
+Lemma publish_pid_case (QP : N -> qospid) dup retain s t d1 : bytes_okb d1 = true ->
+  fin (ro ((a <- (rl' <- checked_sub (len d1) 2 ;; pid <- V3.pid_read ;; ret (QP pid, rl')) ;;
+            p <- (let '(qp, rl) := a in
+                  props <- decode_props (CtxPacket PPublish) PUBLISH_PROPS ;;
+                  pl <- lift_outcome (props_len PUBLISH_PROPS props) ;;
+                  rl <- checked_sub rl pl ;;
+                  payload <- (if 0 <? rl then
+                                data <- read_exact rl ;;
+                                if match pget props PayloadFormatIndicator with Some (VN 1) => true | _ => false end
+                                   && negb (utf8_valid data)
+                                then fail InvalidPayloadFormat else ret data
+                              else ret []) ;;
+                  topic' <- lift_outcome (name_try s) ;;
+                  ret {| p_dup := dup; p_retain := retain; V5.p_qospid := qp; p_topic := topic';
+                         V5.p_props := props; p_payload := payload |}) ;;
+            ret (Publish p)) t d1))
+  = fin ((t0 <~ (_ <~ sguard (Spec.topic_name_ok s) ;; sret s) ;;
+          qp <~ (p <~ p_pid ;; sret (QP p)) ;;
+          pr <~ p_props true 3 ;;
+          payload <~ p_rest ;;
+          _ <~ sguard (utf8_flag_ok pr payload) ;;
+          sret (Publish {| p_dup := dup; p_retain := retain; V5.p_qospid := qp; p_topic := t0;
+                           V5.p_props := pr; p_payload := payload |})) d1).
+Proof.
+  intros Hd1. rewrite spec_pid_first.
+  destruct (N.lt_ge_cases (len d1) 2) as [S|S].
+  - rewrite bind_assoc. erewrite bind_err by (apply checked_sub_fail; exact S).
+    rewrite (p_pid_short _ S). reflexivity.
+  - rewrite bind_assoc. erewrite bind_ok by (apply checked_sub_ok; lia).
+    rewrite bind_assoc, (ro_bind_sim _ _ _ _ _ sim_pid_read Hd1).
+    destruct (p_pid d1) as [[pid d2]|] eqn:Ep; [|reflexivity].
+    pose proof (p_pid_some _ _ _ Ep) as Hl. destruct (suffixing_pid _ _ _ Ep) as [c0 Hc0].
+    assert (Hd2 : bytes_okb d2 = true) by (subst d1; exact (bytes_okb_suffix _ _ Hd1)).
+    rewrite bind_ret. cbv beta iota. replace (len d1 - 2) with (len d2) by lia.
+    exact (publish_tail5 (CtxPacket PPublish) dup retain (QP pid) s t d2 Hd2).
+Qed.
+
+Lemma publish_fin flags t d : bytes_okb d = true -> (flags / 2) mod 4 < 3 ->
+  fin (ro ((p <- publish_decode {| h_typ := PPublish; h_dup := bit flags 3; h_qos := (flags / 2) mod 4;
+                                   h_retain := bit flags 0; h_rl := len d |} ;; ret (Publish p)) t d))
+  = fin (p5_publish true flags d).
+Proof.
+  intros Hd Hq. unfold p5_publish. cbv zeta. rewrite !testbit_bit.
+  destruct (N.ltb_spec ((flags / 2) mod 4) 3) as [_|L]; [|exfalso; lia].
+  cbn [sguard]. unfold sbind at 1. cbn [sret].
+  unfold publish_decode. cbn [h_rl h_qos h_dup h_retain h_typ].
+  remember ((flags / 2) mod 4) as q eqn:Eq.
+  rewrite bind_assoc, ro_bind, ro_read_string. unfold p_name. rewrite sbind_assoc. unfold sbind at 1.
+  destruct (p_str d) as [[s d1]|] eqn:Es; [|reflexivity].
+  destruct (suffixing_str _ _ _ Es) as [c0 Hc0].
+  assert (Hd1 : bytes_okb d1 = true) by (subst d; exact (bytes_okb_suffix _ _ Hd)).
+  apply p_str_some in Es as (_ & Hu & Hlen).
+  rewrite bind_assoc. erewrite bind_ok by (apply checked_sub_ok; lia).
+  replace (len d - (2 + len s)) with (len d1) by lia.
+  rewrite bind_assoc.
+  assert (Hc : q = 0 \/ q = 1 \/ q = 2) by lia.
+  destruct Hc as [E|[E|E]]; rewrite E; lit_tests.
+  - rewrite bind_ret. cbv beta iota. unfold p_qospid. lit_tests. rewrite sbind_assoc.
+    exact (publish_tail5 (CtxPacket PPublish) (bit flags 3) (bit flags 0) QP0 s t d1 Hd1).
+  - unfold p_qospid. lit_tests. exact (publish_pid_case QP1 (bit flags 3) (bit flags 0) s t d1 Hd1).
+  - unfold p_qospid. lit_tests. exact (publish_pid_case QP2 (bit flags 3) (bit flags 0) s t d1 Hd1).
+Qed.
+
+(* ------------------------------------------------------------------------------------------ *)
+(* C04: the strict front-end against the grammar                                              *)
+(* ------------------------------------------------------------------------------------------ *)
+(* packet types whose decoder recomputes lengths from the decoded values and therefore refuses
+   every non-minimal variable byte integer: PUBLISH, SUBSCRIBE, SUBACK, UNSUBACK *)
+Definition recheck5 (cb : N) : bool :=
+  match cb / 16 with 3 | 8 | 9 | 11 => true | _ => false end.
+
+Lemma flags_qos cb : (cb / 2) mod 4 = (cb mod 16 / 2) mod 4.
+Proof. lia. Qed.
+Lemma flags_bit3 cb : bit cb 3 = bit (cb mod 16) 3.
+Proof. unfold bit. change (2 ^ 3) with 8. f_equal. lia. Qed.
+Lemma flags_bit0 cb : bit cb 0 = bit (cb mod 16) 0.
+Proof. unfold bit. change (2 ^ 0) with 1. f_equal. lia. Qed.
+
+Lemma strict_tail (r : reader packet) (m : sp packet) body :
+  m [] = None -> fin (ro (r TEof body)) = fin (m body) ->
+  (if len body =? 0 then None else match r TEof body with ROk p [] => Some p | _ => None end)
+  = exactly m body.
+Proof.
+  intros Hn He. rewrite exactly_fin. destruct body as [|x b].
+  - change (len [] =? 0) with true. cbv iota. rewrite Hn. reflexivity.
+  - destruct (N.eqb_spec (len (x :: b)) 0) as [E|E]; [rewrite len_cons in E; lia|].
+    rewrite fin_ro. exact He.
+Qed.
+
+Ltac hdr_reduce :=
+  cbv beta iota zeta delta [flag_nibble body5 orb build_empty_packet V3.mk_header h_typ h_rl block_decode].
+
+Ltac empty_case cb body :=
+  destruct (cb mod 16 =? 0); cbn [andb]; [|reflexivity];
+  destruct body as [|x b]; [reflexivity|];
+  let Z := fresh "Z" in destruct (N.eqb_spec (len (x :: b)) 0) as [Z|Z]; [rewrite len_cons in Z; exfalso; lia|reflexivity].
+
+Theorem v5_exact : forall prof cb body,
+  bytes_okb (cb :: body) = true -> len body < 268435456 ->
+  strict5 prof cb (len body) body = parse5 (recheck5 cb) (frame5 cb body).
+Proof.
+  intros prof cb body Hb Hl. unfold parse5. rewrite (frame_wvi_s _ cb body Hl). cbv beta iota zeta.
+  apply okb_cons_inv in Hb as [Hcb Hbody].
+  unfold strict5, header_new_with, recheck5.
+  assert (Ht : cb / 16 = 0 \/ cb / 16 = 1 \/ cb / 16 = 2 \/ cb / 16 = 3 \/ cb / 16 = 4 \/ cb / 16 = 5 \/
+               cb / 16 = 6 \/ cb / 16 = 7 \/ cb / 16 = 8 \/ cb / 16 = 9 \/ cb / 16 = 10 \/ cb / 16 = 11 \/
+               cb / 16 = 12 \/ cb / 16 = 13 \/ cb / 16 = 14 \/ cb / 16 = 15) by lia.
+  destruct Ht as [E|[E|[E|[E|[E|[E|[E|[E|[E|[E|[E|[E|[E|[E|[E|E]]]]]]]]]]]]]]];
+    rewrite E; lit_tests; hdr_reduce.
+  - (* 0: reserved *) reflexivity.
+  - (* 1: CONNECT *)
+    destruct (cb mod 16 =? 0); [|reflexivity]. cbv beta iota.
+    apply strict_tail; [reflexivity|]. apply fin_sim; [apply connect_sim|exact Hbody].
+  - (* 2: CONNACK *)
+    destruct (cb mod 16 =? 0); [|reflexivity]. cbv beta iota.
+    apply strict_tail; [reflexivity|]. apply fin_sim; [apply connack_sim|exact Hbody].
+  - (* 3: PUBLISH *)
+    unfold qos_of_u8. destruct (N.ltb_spec ((cb / 2) mod 4) 3) as [Q|Q]; cbv beta iota.
+    + apply strict_tail.
+      * unfold p5_publish. cbv zeta. destruct ((cb mod 16 / 2) mod 4 <? 3); reflexivity.
+      * rewrite flags_bit3, flags_bit0, flags_qos. apply publish_fin; [exact Hbody|rewrite <- flags_qos; exact Q].
+    + rewrite exactly_fin. unfold p5_publish. cbv zeta.
+      destruct (N.ltb_spec ((cb mod 16 / 2) mod 4) 3) as [Q'|Q']; [rewrite <- flags_qos in Q'; exfalso; lia|].
+      reflexivity.
+  - (* 4: PUBACK *)
+    destruct (cb mod 16 =? 0); [|reflexivity]. cbv beta iota.
+    apply strict_tail; [reflexivity|]. f_equal. apply (ack_eq PPuback 4); [exact tab_puback|reflexivity|exact Hbody|reflexivity].
+  - (* 5: PUBREC *)
+    destruct (cb mod 16 =? 0); [|reflexivity]. cbv beta iota.
+    apply strict_tail; [reflexivity|]. f_equal. apply (ack_eq PPubrec 5); [exact tab_pubrec|reflexivity|exact Hbody|reflexivity].
+  - (* 6: PUBREL *)
+    destruct (cb mod 16 =? 2); [|reflexivity]. cbv beta iota.
+    apply strict_tail; [reflexivity|]. f_equal. apply (ack_eq PPubrel 6); [exact tab_pubrel|reflexivity|exact Hbody|reflexivity].
+  - (* 7: PUBCOMP *)
+    destruct (cb mod 16 =? 0); [|reflexivity]. cbv beta iota.
+    apply strict_tail; [reflexivity|]. f_equal. apply (ack_eq PPubcomp 7); [exact tab_pubcomp|reflexivity|exact Hbody|reflexivity].
+  - (* 8: SUBSCRIBE *)
+    destruct (cb mod 16 =? 2); [|reflexivity]. cbv beta iota.
+    apply strict_tail; [reflexivity|]. apply subscribe_fin; [exact Hbody|reflexivity].
+  - (* 9: SUBACK *)
+    destruct (cb mod 16 =? 0); [|reflexivity]. cbv beta iota.
+    apply strict_tail; [reflexivity|]. apply (suback_fin PSuback 9); [exact tab_suback|reflexivity|exact Hbody|reflexivity].
+  - (* 10: UNSUBSCRIBE *)
+    destruct (cb mod 16 =? 2); [|reflexivity]. cbv beta iota.
+    apply strict_tail; [reflexivity|]. apply unsubscribe_fin; [exact Hbody|reflexivity].
+  - (* 11: UNSUBACK *)
+    destruct (cb mod 16 =? 0); [|reflexivity]. cbv beta iota.
+    apply strict_tail; [reflexivity|]. apply (suback_fin PUnsuback 11); [exact tab_unsuback|reflexivity|exact Hbody|reflexivity].
+  - (* 12: PINGREQ *) empty_case cb body.
+  - (* 13: PINGRESP *) empty_case cb body.
+  - (* 14: DISCONNECT *)
+    destruct (cb mod 16 =? 0); [|reflexivity]. cbv beta iota.
+    destruct body as [|x b]; [reflexivity|].
+    destruct (N.eqb_spec (len (x :: b)) 0) as [Z|Z]; [rewrite len_cons in Z; exfalso; lia|].
+    rewrite exactly_fin, fin_ro. f_equal. apply disconnect_eq; [exact Hbody|reflexivity].
+  - (* 15: AUTH *)
+    destruct (cb mod 16 =? 0); [|reflexivity]. cbv beta iota.
+    destruct body as [|x b]; [reflexivity|].
+    destruct (N.eqb_spec (len (x :: b)) 0) as [Z|Z]; [rewrite len_cons in Z; exfalso; lia|].
+    rewrite exactly_fin, fin_ro. f_equal. apply auth_eq; [exact Hbody|reflexivity].
+Qed.
+
+(* the three statements of the task: (i) soundness w.r.t. the lenient grammar, (ii) completeness
+   w.r.t. the strict grammar, (iii) agreement wherever the two grammar modes agree *)
+Theorem v5_grammar_sound : forall prof cb body p,
+  bytes_okb (cb :: body) = true -> len body < 268435456 ->
+  strict5 prof cb (len body) body = Some p ->
+  parse5 false (cb :: write_var_int (len body) ++ body) = Some p.
+Proof.
+  intros prof cb body p Hb Hl H. rewrite (v5_exact prof cb body Hb Hl) in H. unfold frame5 in H.
+  destruct (recheck5 cb); [apply parse5_mono|]; exact H.
+Qed.
+
+Theorem v5_grammar_complete : forall prof cb body p,
+  bytes_okb (cb :: body) = true -> len body < 268435456 ->
+  parse5 true (cb :: write_var_int (len body) ++ body) = Some p ->
+  strict5 prof cb (len body) body = Some p.
+Proof.
+  intros prof cb body p Hb Hl H. rewrite (v5_exact prof cb body Hb Hl). unfold frame5.
+  destruct (recheck5 cb); [|apply parse5_mono]; exact H.
+Qed.
+
+Theorem v5_accept_iff_grammar : forall prof cb body,
+  bytes_okb (cb :: body) = true -> len body < 268435456 ->
+  parse5 true (cb :: write_var_int (len body) ++ body) = parse5 false (cb :: write_var_int (len body) ++ body) ->
+  strict5 prof cb (len body) body = parse5 true (cb :: write_var_int (len body) ++ body).
+Proof.
+  intros prof cb body Hb Hl Hm. rewrite (v5_exact prof cb body Hb Hl). unfold frame5.
+  destruct (recheck5 cb); [reflexivity|symmetry; exact Hm].
+Qed.
+
+(* the verdict of the strict front-end does not depend on the build profile *)
+Corollary v5_strict_profile_indep : forall cb body,
+  bytes_okb (cb :: body) = true -> len body < 268435456 ->
+  strict5 Debug cb (len body) body = strict5 Release cb (len body) body.
+Proof. intros cb body Hb Hl. rewrite !(v5_exact _ cb body Hb Hl). reflexivity. Qed.
+
+(* non-minimal integers are refused by exactly four decoders: on PUBLISH, SUBSCRIBE, SUBACK and
+   UNSUBACK frames the code IS the strict grammar *)
+Corollary v5_recheck_strict : forall prof cb body,
+  bytes_okb (cb :: body) = true -> len body < 268435456 -> recheck5 cb = true ->
+  strict5 prof cb (len body) body = parse5 true (cb :: write_var_int (len body) ++ body).
+Proof. intros prof cb body Hb Hl Hr. rewrite (v5_exact prof cb body Hb Hl), Hr. reflexivity. Qed.
+
+(* ------------------------------------------------------------------------------------------ *)
+(* C10: the reference parser on what the encoder writes                                       *)
+(* ------------------------------------------------------------------------------------------ *)
+(* For PUBLISH, SUBSCRIBE, SUBACK, UNSUBACK conformance follows from the model round trip and
+   v5_exact (their grammar mode is the strict one).  For the other packets v5_exact only gives the
+   lenient grammar, so the strict grammar is run directly on the encoder's chunks; each primitive
+   step is transferred from the model-side round-trip lemmas of Proofs/Parses.v. *)
+Lemma ro_to_sp {A} (m : reader A) (m' : sp A) t d a r :
+  (forall t d, ro (m t d) = m' d) -> m t d = ROk a r -> m' d = Some (a, r).
+Proof. intros H E. rewrite <- (H t d), E. reflexivity. Qed.
+
+Lemma sp_u16 n r : n < 65536 -> p_u16 (be16 n ++ r) = Some (n, r).
+Proof. intros H. apply (ro_to_sp read_u16 p_u16 TEof); [apply ro_read_u16|apply read_u16_be16; exact H]. Qed.
+Lemma sp_pid p r : pid_ok p = true -> p_pid (be16 p ++ r) = Some (p, r).
+Proof. intros H. apply (ro_to_sp V3.pid_read p_pid TEof); [apply ro_pid_read|apply pid_read_be16; exact H]. Qed.
+Lemma sp_bin s r : len s <= 65535 -> p_bin (be16 (len s mod 65536) ++ s ++ r) = Some (s, r).
+Proof. intros H. apply (ro_to_sp read_bytes p_bin TEof); [apply ro_read_bytes|apply read_bytes_lp; exact H]. Qed.
+Lemma sp_str s r : len s <= 65535 -> utf8_valid s = true -> p_str (be16 (len s mod 65536) ++ s ++ r) = Some (s, r).
+Proof. intros H Hu. apply (ro_to_sp read_string p_str TEof); [apply ro_read_string|apply read_string_lp; assumption]. Qed.
+Lemma sp_name s r : len s <= 65535 -> utf8_valid s = true -> name_is_invalid s = false ->
+  p_name (be16 (len s mod 65536) ++ s ++ r) = Some (s, r).
+Proof.
+  intros H Hu Hn. unfold p_name, sbind. rewrite (sp_str s r H Hu).
+  rewrite name_spec in Hn. apply negb_false_iff in Hn. rewrite Hn. reflexivity.
+Qed.
+
+Lemma sp_props L carrier ps pl rest : tab L carrier -> NoDup (map prop_num L) ->
+  props_inv L ps = true -> props_valid L ps = true -> props_len L ps = Ok pl -> bytes_okb rest = true ->
+  p_props true carrier (concat (props_enc L ps) ++ rest) = Some (ps, rest).
+Proof.
+  intros Ht Hnd Hi Hv Hl Hr. destruct (props_len_inv _ _ _ Hl) as [Hb Epl].
+  assert (Hok : bytes_okb (concat (props_enc L ps) ++ rest) = true).
+  { rewrite bytes_okb_app, (props_enc_bytes_inv _ _ Hi Hb), Hr. reflexivity. }
+  rewrite (props_strict (CtxPacket PConnect) L carrier Ht TEof _ Hok).
+  rewrite (props_rt (CtxPacket PConnect) L ps TEof rest Hnd Hi Hv Hb).
+  rewrite len_app. fold (clen (props_enc L ps)).
+  destruct (props_enc_len _ _ Hi Hb) as [-> _].
+  destruct (N.eqb_spec (props_body_len L ps + width (props_body_len L ps) + len rest)
+                       (width (props_body_len L ps) + props_body_len L ps + len rest)); [reflexivity|exfalso; lia].
+Qed.
+
+Lemma sp_reason typ c r : Spec.mem c (reason_codes typ) = true -> p_reason typ (c :: r) = Some (c, r).
+Proof. intros H. unfold p_reason. rewrite sbind_u8, H. reflexivity. Qed.
+
+Lemma app_nil_end_r (l : bytes) : l = l ++ [].
+Proof. symmetry. apply app_nil_r. Qed.
+
+(* ---- CONNACK ---- *)
+Lemma connack_sp c n : I5.valid (Connack c) = true -> connack_len c = Ok n ->
+  p5_connack true (concat (connack_enc c)) = Some (Connack c, []).
+Proof.
+  unfold I5.valid. cbn [I5.types_inv]. unfold connack_len, connack_enc. intros Hv H.
+  open_len H CONNACK_PROPS (ca_props c) pl Epl. split_and.
+  rewrite concat_app. cbn [concat app]. unfold p5_connack, p_bool01. rewrite sbind_assoc, sbind_u8.
+  assert (Esp : (if bool_n (ca_sp c) =? 0 then sret false
+                 else if bool_n (ca_sp c) =? 1 then sret true else sfail) = sret (ca_sp c))
+    by (destruct (ca_sp c); reflexivity).
+  rewrite Esp. unfold sbind at 1. cbn [sret]. unfold sbind at 1.
+  rewrite sp_reason by assumption.
+  rewrite (app_nil_end_r (concat (props_enc CONNACK_PROPS (ca_props c)))).
+  unfold sbind. rewrite (sp_props _ _ _ pl [] tab_connack nodup_connack) by (try assumption; reflexivity).
+  destruct c; reflexivity.
+Qed.
+
+(* ---- PUBACK / PUBREC / PUBREL / PUBCOMP ---- *)
+Lemma ack_sp table typ a n : tab ACK_PROPS typ -> codes_of table = reason_codes typ ->
+  I5.ack_inv table a = true -> props_valid ACK_PROPS (a_props a) = true -> ack_len a = Ok n ->
+  p5_ack true typ (concat (ack_enc a)) = Some (a, []).
+Proof.
+  unfold I5.ack_inv, ack_len, ack_enc. intros Ht Hc Hi Hv H. split_and.
+  rewrite concat_cons. unfold p5_ack, sbind at 1. rewrite sp_pid by assumption.
+  destruct (props_is_default (a_props a)) eqn:Ed.
+  - apply props_is_default_spec in Ed.
+    destruct (N.eqb_spec (a_code a) 0) as [Ec|Ec].
+    + cbn [concat]. rewrite sbind_at_end_nil. destruct a; cbn [a_code a_props] in *; subst; reflexivity.
+    + cbn [concat app]. rewrite sbind_at_end_cons. unfold sbind at 1.
+      rewrite sp_reason by (rewrite <- Hc, <- mem_n_mem; assumption).
+      rewrite sbind_at_end_nil. destruct a; cbn [a_code a_props] in *; subst; reflexivity.
+  - open_len H ACK_PROPS (a_props a) pl Epl.
+    rewrite concat_cons. cbn [app]. rewrite sbind_at_end_cons. unfold sbind at 1.
+    rewrite sp_reason by (rewrite <- Hc, <- mem_n_mem; assumption).
+    pose proof (props_len_pos _ _ _ Epl) as Hp.
+    assert (Hne : exists y r, concat (props_enc ACK_PROPS (a_props a)) = y :: r).
+    { destruct (concat (props_enc ACK_PROPS (a_props a))) as [|y r] eqn:Ec; [|eauto]. exfalso.
+      assert (Hcl : clen (props_enc ACK_PROPS (a_props a)) = pl) by (apply props_clen; [apply var_ok_ack|exact Epl]).
+      unfold clen in Hcl. rewrite Ec, len_nil in Hcl. lia. }
+    destruct Hne as (y & r & Ey). rewrite Ey, sbind_at_end_cons, <- Ey.
+    rewrite (app_nil_end_r (concat (props_enc ACK_PROPS (a_props a)))).
+    unfold sbind. rewrite (sp_props _ _ _ pl [] Ht nodup_ack) by (try assumption; reflexivity).
+    destruct a; reflexivity.
+Qed.
+
+(* ---- DISCONNECT / AUTH ---- *)
+Lemma props_enc_nonempty L ps pl : props_var_ok L ps = true -> props_len L ps = Ok pl ->
+  exists y r, concat (props_enc L ps) = y :: r.
+Proof.
+  intros Hvo Epl. pose proof (props_len_pos _ _ _ Epl) as Hp.
+  destruct (concat (props_enc L ps)) as [|y r] eqn:Ec; [|eauto]. exfalso.
+  assert (Hcl : clen (props_enc L ps) = pl) by (apply props_clen; assumption).
+  unfold clen in Hcl. rewrite Ec, len_nil in Hcl. lia.
+Qed.
+
+Lemma disconnect_sp d n : I5.valid (Disconnect d) = true -> disconnect_len d = Ok n ->
+  p5_disconnect true (concat (disconnect_enc d)) = Some (Disconnect d, []).
+Proof.
+  unfold I5.valid. cbn [I5.types_inv]. unfold disconnect_len, disconnect_enc. intros Hv H. split_and.
+  unfold p5_disconnect.
+  destruct (props_is_default (d_props d)) eqn:Ed.
+  - apply props_is_default_spec in Ed.
+    destruct (N.eqb_spec (d_code d) 0) as [Ec|Ec].
+    + cbn [concat]. rewrite sbind_at_end_nil. destruct d; cbn [d_code d_props] in *; subst; reflexivity.
+    + cbn [concat app]. rewrite sbind_at_end_cons. unfold sbind at 1.
+      rewrite sp_reason by (rewrite <- mem_n_mem; assumption).
+      rewrite sbind_at_end_nil. destruct d; cbn [d_code d_props] in *; subst; reflexivity.
+  - open_len H DISCONNECT_PROPS (d_props d) pl Epl.
+    rewrite concat_cons. cbn [app]. rewrite sbind_at_end_cons. unfold sbind at 1.
+    rewrite sp_reason by (rewrite <- mem_n_mem; assumption).
+    destruct (props_enc_nonempty _ _ _ (var_ok_disconnect _) Epl) as (y & r & Ey).
+    rewrite Ey, sbind_at_end_cons, <- Ey.
+    rewrite (app_nil_end_r (concat (props_enc DISCONNECT_PROPS (d_props d)))).
+    unfold sbind. rewrite (sp_props _ _ _ pl [] tab_disconnect nodup_disconnect) by (try assumption; reflexivity).
+    destruct d; reflexivity.
+Qed.
+
+Lemma auth_sp d n : I5.valid (Auth d) = true -> auth_len d = Ok n ->
+  p5_auth true (concat (auth_enc d)) = Some (Auth d, []).
+Proof.
+  unfold I5.valid. cbn [I5.types_inv]. unfold auth_len, auth_enc. intros Hv H. split_and.
+  unfold p5_auth.
+  destruct ((d_code d =? 0) && props_is_default (d_props d)) eqn:Ed.
+  - apply andb_true_iff in Ed as [Ec Ed]. apply N.eqb_eq in Ec. apply props_is_default_spec in Ed.
+    cbn [concat]. rewrite sbind_at_end_nil. destruct d; cbn [d_code d_props] in *; subst; reflexivity.
+  - open_len H AUTH_PROPS (d_props d) pl Epl.
+    rewrite concat_cons. cbn [app]. rewrite sbind_at_end_cons. unfold sbind at 1.
+    rewrite sp_reason by (rewrite <- mem_n_mem; assumption).
+    rewrite (app_nil_end_r (concat (props_enc AUTH_PROPS (d_props d)))).
+    unfold sbind. rewrite (sp_props _ _ _ pl [] tab_auth nodup_auth) by (try assumption; reflexivity).
+    destruct d; reflexivity.
+Qed.
+
+(* ---- CONNECT ---- *)
+Lemma sp_opt_str o rest : opt_all text_ok o = true -> opt_all short o = true ->
+  p_opt (match o with Some _ => true | None => false end) p_str (concat (V3.opt_lp o) ++ rest) = Some (o, rest).
+Proof.
+  intros Hi Hv. destruct o as [s|]; cbn [opt_all V3.opt_lp] in *; [|reflexivity].
+  apply text_ok_parts in Hi as [_ Hu]. apply short_le in Hv. norm_bytes.
+  unfold p_opt, sbind. rewrite (sp_str s rest Hv Hu). reflexivity.
+Qed.
+Lemma sp_opt_bin o rest : opt_all short o = true ->
+  p_opt (match o with Some _ => true | None => false end) p_bin (concat (V3.opt_lp o) ++ rest) = Some (o, rest).
+Proof.
+  intros Hv. destruct o as [s|]; cbn [opt_all V3.opt_lp] in *; [|reflexivity].
+  apply short_le in Hv. norm_bytes. unfold p_opt, sbind. rewrite (sp_bin s rest Hv). reflexivity.
+Qed.
+
+Lemma will_sp w n rest : I5.will_inv w = true -> I5.will_valid w = true -> will_len w = Ok n ->
+  bytes_okb rest = true ->
+  will_spec true (w_qos w) (w_retain w) (concat (will_enc w) ++ rest) = Some (w, rest).
+Proof.
+  unfold I5.will_inv, I5.will_valid, will_len, will_enc, will_spec. intros Hi Hv H Hr.
+  open_len H WILL_PROPS (w_props w) pl Epl. split_and.
+  match goal with Hn : name_ok _ = true |- _ => pose proof (name_ok_parts _ Hn) as [Hbt [Hu Hin]] end.
+  repeat match goal with Hs : short _ = true |- _ => apply short_le in Hs end.
+  rewrite !concat_app, <- ?app_assoc. unfold lp_chunks. norm_bytes.
+  unfold sbind at 1. rewrite (sp_props _ _ _ pl _ tab_will nodup_will); try assumption.
+  2:{ rewrite !bytes_okb_app, !bytes_okb_lenpfx, Hbt, Hr.
+      match goal with Hp : bytes_okb (w_payload w) = true |- _ => rewrite Hp end. reflexivity. }
+  unfold sbind at 1. rewrite sp_name by assumption.
+  unfold sbind at 1. rewrite sp_bin by assumption.
+  assert (Hf : utf8_flag_ok (w_props w) (w_payload w) = true).
+  { rewrite utf8_flag_spec.
+    match goal with Hx : (if payload_flagged (w_props w) then _ else true) = true |- _ => revert Hx end.
+    change (payload_flagged (w_props w)) with (flagged (pget (w_props w) PayloadFormatIndicator)).
+    destruct (flagged (pget (w_props w) PayloadFormatIndicator)); [intros ->|intros _]; reflexivity. }
+  rewrite Hf. cbn [sguard]. unfold sbind, sret. destruct w; reflexivity.
+Qed.
+
+Lemma connect_sp c n : I5.valid (Connect c) = true -> connect_len c = Ok n ->
+  bytes_okb (concat (connect_enc c)) = true ->
+  p5_connect true (concat (connect_enc c)) = Some (Connect c, []).
+Proof.
+  unfold I5.valid. cbn [I5.types_inv]. intros Hv H Hb. split_and.
+  destruct (c_protocol c) eqn:Epr; try discriminate.
+  unfold connect_len in H. open_len H CONNECT_PROPS (c_props c) pl Epl.
+  destruct (match c_will c with Some w => will_len w | None => Ok 0 end) as [wl|e|s] eqn:Ewl;
+    cbn [obind] in H; try discriminate.
+  match goal with Hw : opt_all I5.will_inv (c_will c) = true |- _ =>
+    destruct (connect_flags_bits c (will_inv_qos _ Hw)) as (B0 & B1 & B2 & B3 & B5 & B6 & B7) end.
+  match goal with Hk : u16 _ = true |- _ => unfold u16 in Hk; apply N.ltb_lt in Hk end.
+  match goal with Hc : text_ok (c_client_id c) = true |- _ => apply text_ok_parts in Hc as [_ Hcu] end.
+  match goal with Hs : short (c_client_id c) = true |- _ => apply short_le in Hs end.
+  revert Hb. unfold connect_enc. rewrite Epr. rewrite !concat_app, <- ?app_assoc. unfold lp_chunks. norm_bytes.
+  intros Hb. rewrite !bytes_okb_app in Hb. split_and.
+  rewrite p5_connect_split.
+  change (concat (protocol_enc V500) ++ ?R) with (be16 (len MQTT mod 65536) ++ MQTT ++ ([5] ++ R)).
+  unfold sbind at 1. rewrite sp_bin by (vm_compute; discriminate).
+  cbn [app]. rewrite sbind_u8.
+  change (Spec.leq MQTT [77; 81; 84; 84] && (5 =? 5)) with true. cbn [sguard]. unfold sbind at 1. cbn [sret].
+  unfold p5_connect_rest, p_cflags. rewrite sbind_assoc, sbind_u8. cbv zeta. rewrite !testbit_bit.
+  cbn [cf_user cf_pass cf_wretain cf_wqos cf_will cf_clean].
+  rewrite B0, B1, B2, B3, B5, B6, B7. cbn [negb sguard].
+  rewrite sbind_assoc. unfold sbind at 1. cbn [sret].
+  assert (Hq : (if match c_will c with Some _ => true | None => false end
+                then match c_will c with Some w => w_qos w | None => 0 end <? 3
+                else match c_will c with Some w => w_qos w | None => 0 end =? 0) = true).
+  { match goal with Hw : opt_all I5.will_inv (c_will c) = true |- _ => pose proof (will_inv_qos _ Hw) as Hwq end.
+    destruct (c_will c); [exact Hwq|reflexivity]. }
+  rewrite Hq. cbn [sguard]. rewrite sbind_assoc. unfold sbind at 1. cbn [sret]. unfold sbind at 1. cbn [sret].
+  unfold sbind at 1. rewrite sp_u16 by assumption.
+  unfold sbind at 1. rewrite (sp_props _ _ _ pl _ tab_connect nodup_connect); try assumption.
+  2:{ rewrite !bytes_okb_app. repeat match goal with Hx : bytes_okb _ = true |- _ => rewrite Hx end. reflexivity. }
+  unfold sbind at 1. rewrite sp_str by assumption.
+  unfold sbind at 1.
+  cbn [cf_user cf_pass cf_wretain cf_wqos cf_will cf_clean].
+  match goal with |- match ?X with _ => _ end = _ =>
+    assert (Hwill : X = Some (c_will c, concat (V3.opt_lp (c_username c)) ++ concat (V3.opt_lp (c_password c)))) end.
+  { destruct (c_will c) as [w|]; cbn [opt_all] in *; [|reflexivity].
+    unfold p_opt, sbind. rewrite (will_sp w wl); try assumption; [reflexivity|].
+    rewrite !bytes_okb_app. repeat match goal with Hx : bytes_okb _ = true |- _ => rewrite Hx end. reflexivity. }
+  rewrite Hwill.
+  unfold sbind at 1. rewrite sp_opt_str by assumption.
+  rewrite (app_nil_end_r (concat (V3.opt_lp (c_password c)))).
+  unfold sbind at 1. rewrite sp_opt_bin by assumption.
+  unfold sret. destruct c; cbn [c_protocol] in Epr; subst; reflexivity.
+Qed.
+
+(* ---- whole packets ---- *)
+Lemma body_rt5 prof p vb chunks n : I5.valid p = true -> encode prof p = Ok vb ->
+  body_enc p = Some (chunks, Ok n) -> body_decode_async prof (hdr p n) TEof (concat chunks) = ROk p [].
+Proof.
+  intros Hv He Eb. destruct (encode_inv _ _ _ _ _ Eb He) as (n' & En & Hn & Hr). inversion En; subst n'.
+  pose proof (v5_roundtrip filter_profile_indep prof p vb Hv He TEof []) as Hrt.
+  rewrite Hr, app_nil_r in Hrt. unfold decode_async in Hrt.
+  erewrite bind_ok in Hrt by (apply header_rt; [exact Hn|apply header_of; rewrite Eb; discriminate]).
+  exact Hrt.
+Qed.
+
+(* the strict front-end accepts what the encoder wrote (packets with a body decoder and a
+   non-empty body; DISCONNECT and AUTH are treated on the grammar side) *)
+Lemma strict5_encoded prof p vb chunks n : I5.valid p = true -> encode prof p = Ok vb ->
+  body_enc p = Some (chunks, Ok n) ->
+  match p with Disconnect _ | Auth _ => False | _ => True end ->
+  strict5 prof (control_byte p) n (concat chunks) = Some p.
+Proof.
+  intros Hv He Eb Hk. pose proof (body_rt5 _ _ _ _ _ Hv He Eb) as Hrt.
+  pose proof (v5_parts_len _ _ _ Hv Eb) as Hc. unfold clen in Hc.
+  unfold strict5. rewrite header_of by (rewrite Eb; discriminate).
+  assert (Hbe : build_empty_packet (hdr p n) = None).
+  { destruct p; try contradiction; try reflexivity; discriminate Eb. }
+  rewrite Hbe.
+  assert (Hbd : block_decode prof (hdr p n) = body_decode_async prof (hdr p n)).
+  { destruct p; try reflexivity; discriminate Eb. }
+  rewrite Hbd.
+  destruct (N.eqb_spec n 0) as [Z|Z].
+  - exfalso. rewrite Z in Hc. apply len_zero_nil in Hc. rewrite Hc in Hrt.
+    destruct p; try contradiction; try discriminate Eb; vm_compute in Hrt; discriminate Hrt.
+  - rewrite Hrt. reflexivity.
+Qed.
+
+Lemma conformant_via_model prof p vb chunks n : I5.valid p = true -> encode prof p = Ok vb ->
+  body_enc p = Some (chunks, Ok n) -> n < 268435456 ->
+  match p with Disconnect _ | Auth _ => False | _ => True end ->
+  parse5 (recheck5 (control_byte p)) (control_byte p :: write_var_int n ++ concat chunks) = Some p.
+Proof.
+  intros Hv He Eb Hn Hk.
+  pose proof (v5_parts_len _ _ _ Hv Eb) as Hc. unfold clen in Hc.
+  pose proof (v5_chunks_bytes _ _ _ (valid_types_inv _ Hv) Eb) as Hbytes.
+  pose proof (strict5_encoded _ _ _ _ _ Hv He Eb Hk) as Hs.
+  rewrite <- Hc in Hs |- *. rewrite <- Hs.
+  symmetry. apply (v5_exact prof); [|rewrite Hc; exact Hn].
+  rewrite bytes_okb_cons, Hbytes. pose proof (control_byte_byte p) as Hcb.
+  destruct (N.ltb_spec (control_byte p) 256); [reflexivity|exfalso; lia].
+Qed.
+
+Lemma sbind_pid_be16 {B} (K : N -> sp B) p r : pid_ok p = true -> (x <~ p_pid ;; K x) (be16 p ++ r) = K p r.
+Proof. intros H. unfold sbind. rewrite (sp_pid p r H). reflexivity. Qed.
+
+Lemma upgrade_props {B} carrier (K : props -> sp B) d ps d' :
+  p_props true carrier d = Some (ps, d') ->
+  (pr <~ p_props true carrier ;; K pr) d = (pr <~ p_props false carrier ;; K pr) d.
+Proof. intros H. unfold sbind. rewrite H, (le_props _ _ _ H). reflexivity. Qed.
+
+Lemma publish_recheck x : recheck5 (control_byte (Publish x)) = true.
+Proof.
+  cbn [control_byte]. unfold V3.publish_control_byte, recheck5.
+  destruct (p_dup x), (p_retain x), (V5.p_qospid x); reflexivity.
+Qed.
+
+Lemma frame_wvi_e s cb body : len body < 268435456 ->
+  frame s (cb :: write_var_int (len body) ++ body) = Some (cb, body).
+Proof. exact (frame_wvi_s s cb body). Qed.
+
+Ltac frame_open n chunks Hc Hn :=
+  rewrite <- Hc; unfold parse5;
+  rewrite (frame_wvi_e true _ (concat chunks)) by (rewrite Hc; exact Hn);
+  cbv beta iota zeta.
+
+Theorem v5_conformant : forall prof p vb, I5.valid p = true -> V5.encode prof p = Ok vb ->
+  parse5_strict (as_ref vb) = Some p.
+Proof.
+  intros prof p vb Hv He. unfold parse5_strict.
+  destruct (body_enc p) as [[chunks blen]|] eqn:Eb.
+  2:{ destruct (body_enc_none _ Eb) as [-> | ->]; cbn [encode] in He; inversion He; subst; vm_compute; reflexivity. }
+  destruct (encode_inv _ _ _ _ _ Eb He) as (n & -> & Hn & Hr). rewrite Hr.
+  pose proof (v5_parts_len _ _ _ Hv Eb) as Hc. unfold clen in Hc.
+  pose proof (v5_chunks_bytes _ _ _ (valid_types_inv _ Hv) Eb) as Hbytes.
+  destruct p as [c|c|x|a|a|a|a|s|s|u|s| | |d|d]; cbn [body_enc] in Eb; try discriminate Eb.
+  - (* CONNECT *)
+    inversion Eb as [[E1 E2]]. subst chunks. cbn [control_byte]. frame_open n (connect_enc c) Hc Hn.
+    change (16 / 16) with 1. change (16 mod 16) with 0. lit_tests. cbv beta iota zeta delta [flag_nibble body5].
+    lit_tests. unfold exactly. rewrite (connect_sp c n Hv E2 Hbytes). reflexivity.
+  - (* CONNACK *)
+    inversion Eb as [[E1 E2]]. subst chunks. cbn [control_byte]. frame_open n (connack_enc c) Hc Hn.
+    change (32 / 16) with 2. change (32 mod 16) with 0. lit_tests. cbv beta iota zeta delta [flag_nibble body5].
+    lit_tests. unfold exactly. rewrite (connack_sp c n Hv E2). reflexivity.
+  - (* PUBLISH *)
+    rewrite <- (publish_recheck x). apply (conformant_via_model prof _ vb); try assumption. exact I.
+  - (* PUBACK *)
+    inversion Eb as [[E1 E2]]. subst chunks. cbn [control_byte]. frame_open n (ack_enc a) Hc Hn.
+    change (64 / 16) with 4. change (64 mod 16) with 0. lit_tests. cbv beta iota zeta delta [flag_nibble body5].
+    lit_tests. unfold I5.valid in Hv. cbn [I5.types_inv] in Hv. apply andb_true_iff in Hv as [Hi Hp].
+    unfold exactly, sbind. rewrite (ack_sp PPuback 4 a n tab_puback eq_refl Hi Hp E2). reflexivity.
+  - (* PUBREC *)
+    inversion Eb as [[E1 E2]]. subst chunks. cbn [control_byte]. frame_open n (ack_enc a) Hc Hn.
+    change (80 / 16) with 5. change (80 mod 16) with 0. lit_tests. cbv beta iota zeta delta [flag_nibble body5].
+    lit_tests. unfold I5.valid in Hv. cbn [I5.types_inv] in Hv. apply andb_true_iff in Hv as [Hi Hp].
+    unfold exactly, sbind. rewrite (ack_sp PPubrec 5 a n tab_pubrec eq_refl Hi Hp E2). reflexivity.
+  - (* PUBREL *)
+    inversion Eb as [[E1 E2]]. subst chunks. cbn [control_byte]. frame_open n (ack_enc a) Hc Hn.
+    change (98 / 16) with 6. change (98 mod 16) with 2. lit_tests. cbv beta iota zeta delta [flag_nibble body5].
+    lit_tests. unfold I5.valid in Hv. cbn [I5.types_inv] in Hv. apply andb_true_iff in Hv as [Hi Hp].
+    unfold exactly, sbind. rewrite (ack_sp PPubrel 6 a n tab_pubrel eq_refl Hi Hp E2). reflexivity.
+  - (* PUBCOMP *)
+    inversion Eb as [[E1 E2]]. subst chunks. cbn [control_byte]. frame_open n (ack_enc a) Hc Hn.
+    change (112 / 16) with 7. change (112 mod 16) with 0. lit_tests. cbv beta iota zeta delta [flag_nibble body5].
+    lit_tests. unfold I5.valid in Hv. cbn [I5.types_inv] in Hv. apply andb_true_iff in Hv as [Hi Hp].
+    unfold exactly, sbind. rewrite (ack_sp PPubcomp 7 a n tab_pubcomp eq_refl Hi Hp E2). reflexivity.
+  - (* SUBSCRIBE *)
+    change true with (recheck5 (control_byte (Subscribe s))).
+    apply (conformant_via_model prof _ vb); try assumption. exact I.
+  - (* SUBACK *)
+    change true with (recheck5 (control_byte (Suback s))).
+    apply (conformant_via_model prof _ vb); try assumption. exact I.
+  - (* UNSUBSCRIBE: the lenient result, upgraded through the property section *)
+    pose proof (conformant_via_model prof _ vb _ _ Hv He Eb Hn I) as Hl.
+    change (recheck5 (control_byte (Unsubscribe u))) with false in Hl. rewrite <- Hl.
+    inversion Eb as [[E1 E2]]. subst chunks. cbn [control_byte].
+    rewrite <- Hc. unfold parse5.
+    rewrite !(frame_wvi_e _ _ (concat (unsubscribe_enc u))) by (rewrite Hc; exact Hn). cbv beta iota zeta.
+    change (162 / 16) with 10. change (162 mod 16) with 2. lit_tests. cbv beta iota zeta delta [flag_nibble body5].
+    lit_tests. unfold exactly.
+    unfold I5.valid in Hv. cbn [I5.types_inv] in Hv. unfold unsubscribe_len in E2.
+    open_len E2 UNSUBSCRIBE_PROPS (u_props u) pl Epl. split_and.
+    revert Hbytes. unfold unsubscribe_enc. rewrite concat_cons, concat_app. intros Hbytes.
+    rewrite !bytes_okb_app in Hbytes. split_and.
+    rewrite !sbind_pid_be16 by assumption.
+    erewrite (upgrade_props 10); [reflexivity|].
+    apply (sp_props _ _ _ pl _ tab_unsubscribe nodup_unsubscribe); assumption.
+  - (* UNSUBACK *)
+    change true with (recheck5 (control_byte (Unsuback s))).
+    apply (conformant_via_model prof _ vb); try assumption. exact I.
+  - (* DISCONNECT *)
+    inversion Eb as [[E1 E2]]. subst chunks. cbn [control_byte]. frame_open n (disconnect_enc d) Hc Hn.
+    change (224 / 16) with 14. change (224 mod 16) with 0. lit_tests. cbv beta iota zeta delta [flag_nibble body5].
+    lit_tests. unfold exactly. rewrite (disconnect_sp d n Hv E2). reflexivity.
+  - (* AUTH *)
+    inversion Eb as [[E1 E2]]. subst chunks. cbn [control_byte]. frame_open n (auth_enc d) Hc Hn.
+    change (240 / 16) with 15. change (240 mod 16) with 0. lit_tests. cbv beta iota zeta delta [flag_nibble body5].
+    lit_tests. unfold exactly. rewrite (auth_sp d n Hv E2). reflexivity.
+Qed.
+
+Check v5_exact.
+Check v5_grammar_sound.
+Check v5_grammar_complete.
+Check v5_accept_iff_grammar.
+Check v5_conformant.
+Print Assumptions v5_exact.
+Print Assumptions parse5_mono.
+Print Assumptions v5_grammar_sound.
+Print Assumptions v5_grammar_complete.
+Print Assumptions v5_accept_iff_grammar.
+Print Assumptions v5_conformant.
+Print Assumptions v5_strict_profile_indep.
+Print Assumptions v5_recheck_strict.
